@@ -254,6 +254,7 @@ var calls = []call{
 var tripleCore = []int{0, 1, 3, 4, 9, 14}
 
 func run(r *core.Run) {
+	sched.Stop = r.Expired // soft time budget: explorations end with Complete=false
 	bound := 1
 	if r.Thorough() {
 		bound = 2
